@@ -12,6 +12,7 @@ import (
 	"os/exec"
 	"os/signal"
 	"path/filepath"
+	"pgregory.net/rapid"
 	"strconv"
 	"strings"
 	"syscall"
@@ -61,14 +62,25 @@ func TestC13Child(t *testing.T) {
 }
 
 type c13Case struct {
-	Body   string `json:"body"` // empty, one, text, random, compressible
-	Len    int    `json:"len"`
-	Seed   int    `json:"seed"`
-	Chunks int    `json:"chunks"`
-	Level  int    `json:"level"`
-	Fault  string `json:"fault"` // none, flip, prefix, tail, rename, wrong-root, wrong-data, crash-body, crash-header, live
-	Off    int    `json:"off,omitempty"`
-	Mask   int    `json:"mask,omitempty"`
+	Body   string  `json:"body"` // empty, one, text, random, compressible
+	Len    int     `json:"len"`
+	Seed   int     `json:"seed"`
+	Chunks int     `json:"chunks"`
+	Level  int     `json:"level"`
+	Fault  string  `json:"fault"` // none, flip, prefix, tail, rename, wrong-root, wrong-data, crash-body, crash-header, live
+	Off    int     `json:"off,omitempty"`
+	Mask   int     `json:"mask,omitempty"`
+	Ops    []c13Op `json:"ops,omitempty"` // Fault "history": operations on several entries of one directory in one process
+}
+
+// c13Op: one step of a history. Kinds: write (create key Key with a body of Len bytes, close; Twice closes again),
+// open (open key Key and keep the handle), read (read handle Key%handles fully), close (close that handle; Twice
+// closes again), corrupt (flip one byte of key Key's file, only while no handle of it is open).
+type c13Op struct {
+	Kind  string `json:"kind"`
+	Key   int    `json:"key"`
+	Len   int    `json:"len,omitempty"`
+	Twice bool   `json:"twice,omitempty"`
 }
 
 func c13Body(kind string, n, seed int) []byte {
@@ -265,7 +277,129 @@ func c13WriteFault(c c13Case) *Violation {
 	return nil
 }
 
+// c13History runs a sequence of operations against one directory and a model (key -> body, or corrupt): an Open
+// succeeds iff the model holds an intact body for the key, every read of an open handle yields exactly the body the
+// key had when it was opened, whatever other entries were written, opened, read or closed (even twice) in between.
+func c13History(c c13Case) *Violation {
+	dir := filepath.Join(c13Dir(), "history")
+	os.RemoveAll(dir)
+	os.MkdirAll(dir, 0o755)
+	defer os.RemoveAll(dir)
+	type handle struct {
+		f    *cache.File
+		key  int
+		want []byte
+		read bool
+	}
+	model := map[int][]byte{}
+	corrupt := map[int]bool{}
+	version := map[int]int{}
+	var handles []*handle
+	openOn := func(key int) bool {
+		for _, h := range handles {
+			if h.key == key {
+				return true
+			}
+		}
+		return false
+	}
+	var v *Violation
+	for i, op := range c.Ops {
+		what := fmt.Sprintf("history step %d %+v (steps so far %+v)", i, op, c.Ops[:i])
+		rsum, dsum := c13Digests(100 + op.Key)
+		pi := guard(func() {
+			switch op.Kind {
+			case "write":
+				if openOn(op.Key) {
+					return // rewriting a file that is open for reading is outside this check
+				}
+				version[op.Key]++
+				body := c13Body("random", op.Len, 1000*op.Key+version[op.Key])
+				f, err := cache.Create(dir, sha1.New(), rsum, dsum)
+				if err != nil {
+					v = viol("create", "%s: Create failed: %v", what, err)
+					return
+				}
+				if _, err := f.Write(body); err != nil {
+					v = viol("write", "%s: Write failed: %v", what, err)
+					return
+				}
+				if err := f.Close(); err != nil {
+					v = viol("close", "%s: Close failed: %v", what, err)
+					return
+				}
+				if op.Twice {
+					f.Close() // a second Close (explicit + deferred) may fail but must not disturb anything else
+				}
+				model[op.Key], corrupt[op.Key] = body, false
+			case "corrupt":
+				if body, ok := model[op.Key]; ok && !openOn(op.Key) && !corrupt[op.Key] {
+					name := filepath.Join(dir, c13Name(rsum, dsum))
+					data, err := os.ReadFile(name)
+					if err == nil && len(data) > 0 {
+						data[(op.Len*7919)%len(data)] ^= 0x20
+						os.WriteFile(name, data, 0o644)
+						corrupt[op.Key] = true
+						_ = body
+					}
+				}
+			case "open":
+				if len(handles) >= 4 {
+					return
+				}
+				f, err := cache.Open(dir, sha1.New(), rsum, dsum)
+				body, ok := model[op.Key]
+				switch {
+				case err == nil && (!ok || corrupt[op.Key]):
+					v = viol("opened-corrupt", "%s: Open succeeded although the entry is %s", what, map[bool]string{true: "corrupt", false: "absent"}[ok])
+				case err != nil && ok && !corrupt[op.Key]:
+					v = viol("rejected-valid", "%s: Open of an intact entry failed: %v", what, err)
+				case err == nil:
+					handles = append(handles, &handle{f: f, key: op.Key, want: body})
+				}
+			case "read":
+				if len(handles) == 0 {
+					return
+				}
+				h := handles[op.Key%len(handles)]
+				if h.read {
+					return
+				}
+				h.read = true
+				got, err := io.ReadAll(h.f)
+				if err != nil || !bytes.Equal(got, h.want) {
+					v = viol("wrong-bytes", "%s: the handle of key %d reads %d bytes (err %v), %d were written; first difference at %d", what, h.key, len(got), err, len(h.want), firstDiff(string(got), string(h.want)))
+				}
+			case "close":
+				if len(handles) == 0 {
+					return
+				}
+				k := op.Key % len(handles)
+				h := handles[k]
+				h.f.Close()
+				if op.Twice {
+					h.f.Close()
+				}
+				handles = append(handles[:k], handles[k+1:]...)
+			}
+		})
+		if pi != nil {
+			return panicViolation(what, pi)
+		}
+		if v != nil {
+			break
+		}
+	}
+	for _, h := range handles {
+		h.f.Close()
+	}
+	return v
+}
+
 func c13Check(c c13Case) *Violation {
+	if c.Fault == "history" {
+		return c13History(c)
+	}
 	if c.Fault == "write-limit" {
 		return c13WriteFault(c)
 	}
@@ -379,6 +513,16 @@ func c13Classify(c c13Case) (bool, []string) {
 	labels := []string{"fault:" + c.Fault, "body:" + c.Body}
 	nt := false
 	switch c.Fault {
+	case "history":
+		kinds := map[string]int{}
+		for _, op := range c.Ops {
+			kinds[op.Kind]++
+			if op.Twice && (op.Kind == "write" || op.Kind == "close") {
+				labels = append(labels, "double-close")
+			}
+		}
+		// non-trivial: at least two opens and a read (several entries alive at once)
+		return kinds["open"] >= 2 && kinds["read"] >= 1, append(labels, fmt.Sprintf("ops=%d", len(c.Ops)))
 	case "flip":
 		switch {
 		case c.Off < 20:
@@ -404,10 +548,25 @@ var c13Prop = &Prop[c13Case]{ID: "C13", Check: c13Check, Classify: c13Classify}
 
 func init() { registerReplay(c13Prop) }
 
+func c13GenHistory(t *rapid.T) c13Case {
+	n := rapid.IntRange(3, 14).Draw(t, "nops")
+	c := c13Case{Fault: "history", Body: "random", Level: -1}
+	for i := 0; i < n; i++ {
+		kind := rapid.SampledFrom([]string{"write", "write", "open", "open", "read", "read", "close", "corrupt"}).Draw(t, "kind")
+		c.Ops = append(c.Ops, c13Op{Kind: kind, Key: rapid.IntRange(0, 2).Draw(t, "key"),
+			Len: rapid.SampledFrom([]int{0, 1, 59, 300, 5400, 40000}).Draw(t, "len"), Twice: rapid.IntRange(0, 2).Draw(t, "twice") == 0})
+	}
+	return c
+}
+
 func TestC13(t *testing.T) {
 	st := newStats("C13")
 	defer st.flush()
 	defer os.RemoveAll(c13Dir())
+	rapidPart(t, c13Prop, st, "rapid-histories", pick(1500, 20000), c13GenHistory)
+	if t.Failed() {
+		return
+	}
 	type bodyCfg struct {
 		kind       string
 		n          int
